@@ -1,7 +1,7 @@
 # C05 — memory and db metadata stores expose the same filesystem
 PROPS["C05"] = dict(
     props_file="Properties/C05.v",
-    harnesses=[dict(cmd="stores", mod="cmdmod", model="Model.TreeStores", quick=100, thorough=5000, shard=20, coq_jobs=8,
+    harnesses=[dict(cmd="stores", mod="cmdmod", model="Model.TreeStores", quick=80, thorough=5000, shard=20, coq_jobs=8,
                     preamble="Open Scope Z_scope.",
                     require=["toc.builder-output", "toc.implicit-parent", "toc.repeated-dir", "toc.dir-after-child",
                              "toc.hardlink-to-hardlink", "toc.root-entry", "toc.respelled-name", "toc.empty-xattr",
@@ -43,7 +43,7 @@ PROPS["C05"] = dict(
                "(covered per case by the correspondence check + store-vs-store oracle).",
     level_note="Both interpreters (estargz initFields + metadata/memory; db initNodes/writeAttr/readAttr/readChunks) are hand-modelled in "
                "coq/Model/TreeStores.v and evaluated inside Coq on every generated TOC against the views observed on the real stores. "
-               "Eight minimal repairs were made to /repo (patches/C05-fix-1..8), the model follows the repaired code.",
+               "Seven minimal repairs were made to /repo (patches/C05-fix-1..7), the model follows the repaired code.",
     technique="Coq proofs (induction over chunk tables / histories / TOCs) + vm_compute counterexamples; differential correspondence of two "
               "executable models against the two real stores; store-vs-store oracle on the real code",
     trusted=["metadata/memory + estargz.initFields and cmd/containerd-stargz-grpc/db are modelled by hand in coq/Model/TreeStores.v; tie = complete "
